@@ -14,7 +14,7 @@ P = {
  'C01': dict(
    text='Structural half only: the token state machine extracted from the IR of cfg_parse_internal (states 0-9 x token '
         'classes x option kinds) is compared with the reference grammar in spec/, state closure, the RESET/append '
-        'typestate and exhaustiveness of every dispatch on the option type. Values read back through getters are NOT decided.',
+        'typestate and exhaustiveness of every dispatch on the option type. Also: a new context is complete before code that reads it runs (field REF sets), and the completed option is examined for CFGF_DEPRECATED on every way out of the name state. Values read back through getters are NOT decided.',
    note=TRUST + 'Decides acceptance shape and store/recurse actions per token, not the stored values.',
    tech='parser transition-table extraction by path-sensitive constant propagation over LLVM IR + table comparison',
    ref='DESIGN.md 2/C01',
@@ -46,7 +46,7 @@ P = {
  'C05': dict(
    text='Writer/reader agreement only: every byte that opens a non-literal construct inside a double-quoted string according to '
         'the scanner DFA must be escaped by the value printer (from its IR), and every %s placed between quotes by a print format '
-        'must pass through the escaping writer. Round-trip equality of values is NOT decided.',
+        'must pass through the escaping writer. Output is analysed as a stdio-independent token stream (fprintf/fputs/fputc alike); the reader recognises the printed empty list (element counter). Round-trip equality of values is NOT decided.',
    note=TRUST + 'A necessary condition of the round trip, not the round trip.',
    tech='reader-special byte set from the DFA vs writer-escaped byte set from IR compare/branch structure',
    ref='DESIGN.md 2/C05',
@@ -90,7 +90,7 @@ P = {
  'C11': dict(
    text='Single resolver (all by-name public API reaches the one leaf comparison through cfg_getopt_secidx), the resolver is '
         'pure, every cursor loop of the path tokenizer advances on every cycle, out-parameters are defined on every return. '
-        'Agreement with stepwise navigation on instances is NOT decided.',
+        'Length-limited name comparisons need an end-of-name test; a read cursor steps only over bytes shown to differ from NUL; index qualifiers must be whole numerals. Agreement with stepwise navigation on instances is NOT decided.',
    note=TRUST,
    tech='call-graph rules + loop-progress analysis over IR',
    ref='DESIGN.md 2/C11',
@@ -98,14 +98,14 @@ P = {
  'C12': dict(
    text='The discard sub-parser (states 10-15) is extracted from the IR as a pushdown transition table and run over every '
         'well-formed unknown item the reference grammar derives up to the bound; each must end in "expecting a name" at the '
-        'original level with no error exit. Every skipper state must examine its token.',
+        'original level with no error exit. Sections inherit the whole flag word of their context and a context's flags are final before sections are created. Every skipper state must examine its token.',
    note=TRUST + 'Bounded enumeration of item shapes (nesting/width bounds in the evidence).',
    tech='automaton extraction by constant propagation over IR + exhaustive bounded check of the extracted model',
    ref='DESIGN.md 2/C12'),
  'C13': dict(
    text='Mechanism obligations: include push/pop field agreement, stack-bound guard equals the array length, every failing '
         'return of the include function is diagnosed, parse and include share the resolution idiom, no process exit, include '
-        'capacity restored on every exit of the parse bracket. Equality with inline text is NOT decided.',
+        'capacity restored on every exit of the parse bracket. Section entry hands over the search path; the unwinder returns only at the requested level. Equality with inline text is NOT decided.',
    note=TRUST,
    tech='dominance/guard rules and sibling cross-check over IR',
    ref='DESIGN.md 2/C13',
@@ -113,7 +113,7 @@ P = {
  'C14': dict(
    text='Callback call sites are enumerated by the struct field the pointer is loaded from; at each the verdict must be tested '
         'and the non-zero arm must reach the failing return without further effect; exactly one parse-callback per stored value '
-        'with the token text; validation after every store before the loop back edge; pre-set veto dominates the store.',
+        'with the token text; validation after every store before the loop back edge; The argument buffer is emptied after each function call; registration by path reaches the section template, not one instance. pre-set veto dominates the store.',
    note=TRUST,
    tech='indirect-call-site enumeration + path rules over IR',
    ref='DESIGN.md 2/C14'),
@@ -127,14 +127,14 @@ P = {
  'C16': dict(
    text='Deep-copy completeness as a three-way agreement derived from the code: pointer members of the option record (layout) = '
         'fields the duplicator re-creates = fields the release function frees; every store to a context\'s option array takes its value '
-        'from the duplicator; the caller\'s array does not escape.',
+        'from the duplicator; After a raw copy of a caller record every owned member ends as NULL or a duplicate of the same member (per path), and is neutralised before the first fallible call. the caller\'s array does not escape.',
    note=TRUST + 'Function pointers and the simple-value user pointer are shared by design (spec/).',
    tech='record-layout vs dup/free field-set agreement over IR',
    ref='DESIGN.md 2/C16'),
  'C17': dict(
    text='Code-shape clauses: every non-null return of the search is dominated by the regular-file test on the returned pointer and '
         'is a fresh allocation; absolute names skip directory joining; heap buffers handed to string consumers are NUL-terminated '
-        'on all paths; prepend-and-recurse-first ordering discipline. File-system outcomes are NOT decided.',
+        'on all paths; prepend-and-recurse-first ordering discipline. Buffer sizes/termination by linear length algebra; getpwnam() receives exactly the text between the tilde and the rest. File-system outcomes are NOT decided.',
    note=TRUST,
    tech='dominance + terminated-buffer dataflow over IR',
    ref='DESIGN.md 2/C17',
@@ -149,7 +149,7 @@ P = {
  'C19': dict(
    text='Structural clauses: the per-option printer is called only from the single array-order loop; skip condition is exactly '
         'filter-non-null and filter-returns-non-zero; nested calls receive the effective filter and indent+1; each built-in value '
-        'writer call sits on the null arm of the print-callback test. Exact text is NOT decided.',
+        'writer call sits on the null arm of the print-callback test. Only the setter writes a context's filter; every scalar print path decides whether a value exists. Exact text is NOT decided.',
    note=TRUST,
    tech='call-site / argument-provenance rules over IR',
    ref='DESIGN.md 2/C19',
